@@ -5,7 +5,7 @@ from vlib import core, cli
 
 META = {
     "level": "proof",
-    "technique": "Coq theorems on a Gallina model of the key-derivation plumbing (KDF, PHC codec as section variables); model run against the library (writer contexts, crafted PHSF values, password pairs) with the key recomputed independently from (password, PHSF) by primitive crates, and against the CLI (--password, --password-file)",
+    "technique": "Coq theorems on a Gallina model of the key-derivation plumbing (KDF, PHC codec as section variables); model run against the library (writer contexts, crafted PHSF values, password pairs) with the key recomputed independently from (password, PHSF) by primitive crates, and against the CLI (--password, --password-file) The PHC string codec is inside the model and proved: the executable codec (faithful to password-hash 0.5 on ~170 foreign strings) round-trips every record a writer prints (Proofs/PhcFacts.v, Props/C16_phc.v), so the codec premise is discharged (..._codec / ..._x restatements).",
     "level_text": "Theorems about the model of get_writer_context / verify_password / decrypt_reader (Coq, closed under the global context): the reader derives the writer's key from the recorded values for every parameter choice, the password is used whole, missing password / PHSF fail with the stated error; the negative half is proved relative to two named premises (no KDF collision on the pair, the cipher distinguishes the keys). The model is tied to the code by differential execution with the KDF as a free term and by recomputing the key with primitive crates; the property is evaluated directly on library and CLI as an oracle.",
     "level_note": "Partial by nature: that PBKDF2/Argon2 do not collide and that AES/Camellia under another key do not reproduce the plaintext are premises, not theorems (PBKDF2-HMAC does collide on pw / pw+NUL: known finding). Trusted: Coq kernel + vm_compute; extraction and the OCaml driver (cross-checked each run); harness/src/bin/kdf.rs, refdec.rs and the primitive crates; the model is faithful only as far as the correspondence generators reach.",
 }
